@@ -196,6 +196,13 @@ def gen_cases(tier):
             add(list(order), preexist=True, opts=optsets[1:2])
         for order in itertools.permutations([(0, k_sl, None), (0, 0, None), (3, 1, None)]):
             add(list(order), opts=optsets[:2])
+    # repeated name with a case variant of it in between (an order-insensitive or case-insensitive duplicate check would be fooled): every order
+    for k_sl in range(4, nk):
+        for n_a, n_b in ((0, 3), (3, 0)):
+            for order in itertools.permutations([(n_a, k_sl, None), (n_b, 0, None), (n_a, 1, None)]):
+                add(list(order), opts=optsets[:2])
+            for order in itertools.permutations([(n_a, k_sl, None), (n_b, 1, None), (n_a, 1, None)]):
+                add(list(order), opts=optsets[:1])
     # unpack of a sub path
     for ni in (0, 2, 6):
         for ki in (0, 1, 4, 5):
